@@ -7,6 +7,7 @@ import warnings
 import vt
 vt.use_repo()
 warnings.simplefilter('ignore')   # pydicom warns (once per location: stateful) about odd UIDs
+from vt import api
 from vt.api import cond, deep, fam, tier, pick
 from vt.harness.pdus import (pdu, udi, same, mkstream, sub_ok, build_sub, sample_sub, ae_title_ok, uid_chars,
                              ascii_printable, UIDCH, NAMECH, APPCH, SUB_NAMES, KNOWN_SUB_TYPES)
@@ -25,14 +26,29 @@ def total_len(x):
     return t() if callable(t) else t
 
 
-def rt_pdu(cls, x):
+_HIDDEN = [api.ClassState(pdu), api.ClassState(udi), api.ModuleState(pdu, skip=('PDU_TYPES',)),
+           api.ModuleState(udi)]
+
+
+def fresh():
+    """every condition starts from the state of a freshly imported library: containers kept on classes / modules of the
+    codec (caches, registries) are put back (a cache that survives is then exercised on purpose by `after_history`)"""
+    for st in _HIDDEN:
+        st.restore()
+
+
+def rt_pdu(cls, x, reset=True):
+    if reset:
+        fresh()
     b = x.encode()
     y = cls.decode(b)
     return same(x, y) and y.encode() == b and len(b) == x.total_length()
 
 
-def rt_item(cls, x):
+def rt_item(cls, x, reset=True):
     """Items decode from a stream and must consume exactly their own bytes."""
+    if reset:
+        fresh()
     b = x.encode()
     st = mkstream(b + b'\x51\x00\x00\x04\x00\x00\x40\x00')   # a MaximumLength sub-item follows
     y = cls.decode(st)
@@ -291,41 +307,113 @@ def app_context_roundtrip(n: int, r: int) -> bool:
 TRIPLES = [((i, (i + 1) % 9, (i + 2) % 9)) for i in range(9)] + [((i + 2) % 9, (i + 1) % 9, i) for i in range(9)]
 
 
-@cond(bounds='A-ASSOCIATE-RQ: [application context, k presentation contexts (k symbolic 0..3, first id symbolic), '
+@cond(bounds='A-ASSOCIATE-RQ: [application context, k presentation contexts (k symbolic 0..3, context ids symbolic '
+             '0..255 each: any order, also descending and repeated), '
              'user information with j sub-items (j symbolic 0..3) of kinds given by 18 triples covering every kind in '
              'every position]', family={'triple': list(range(18))}, timeout=120, thorough_timeout=600)
-def assoc_rq_lists(k: int, j: int, id0: int, c: int) -> bool:
+def assoc_rq_lists(k: int, j: int, id0: int, id1: int, id2: int, c: int) -> bool:
     """
-    pre: 0 <= k <= 3 and 0 <= j <= 3 and 0 <= id0 <= 250 and 0 <= c <= 0xFFFFFFFF
+    pre: 0 <= k <= 3 and 0 <= j <= 3 and 0 <= id0 <= 255 and 0 <= id1 <= 255 and 0 <= id2 <= 255 and 0 <= c <= 0xFFFFFFFF
     post: _
     """
     k, j = pick(k, 0, 3), pick(j, 0, 3)
-    pcs = [pdu.PresentationContextItemRQ(id0 + 2 * i, pdu.AbstractSyntaxSubItem(UIDCH[:20 + i]),
+    ids = (id0, id1, id2)
+    pcs = [pdu.PresentationContextItemRQ(ids[i], pdu.AbstractSyntaxSubItem(UIDCH[:20 + i]),
                                          [pdu.TransferSyntaxSubItem(t) for t in TS[:i + 1]]) for i in range(k)]
     subs = [sample_sub(s_, c) for s_ in TRIPLES[fam('triple')][:j]]
     items = [pdu.ApplicationContextItem('1.2.840.10008.3.1.1.1')] + pcs + [pdu.UserInformationItem(subs)]
     x = pdu.AAssociateRqPDU('CALLED', 'CALLING', items)
     ok = rt_pdu(pdu.AAssociateRqPDU, x)
-    deep(ok and k == 3 and j == 3)
+    deep(ok and k == 3 and j == 3 and id0 > id1 > id2)
     return ok
 
 
-@cond(bounds='A-ASSOCIATE-AC: [application context, k presentation-context AC items (k symbolic 0..3, result of each '
-             'symbolic 0..255), user information [MaximumLength(symbolic), ImplementationClassUID]]', timeout=180)
-def assoc_ac_lists(k: int, id0: int, res0: int, res1: int, res2: int, mx: int) -> bool:
+@cond(bounds='A-ASSOCIATE-AC: [application context, k presentation-context AC items (k symbolic 0..3, result and context id of each '
+             'symbolic 0..255, any order), user information [MaximumLength(symbolic), ImplementationClassUID]]', timeout=180)
+def assoc_ac_lists(k: int, id0: int, id1: int, id2: int, res0: int, res1: int, res2: int, mx: int) -> bool:
     """
-    pre: 0 <= k <= 3 and 0 <= id0 <= 250 and 0 <= res0 <= 255 and 0 <= res1 <= 255 and 0 <= res2 <= 255
+    pre: 0 <= id1 <= 255 and 0 <= id2 <= 255
+    pre: 0 <= k <= 3 and 0 <= id0 <= 255 and 0 <= res0 <= 255 and 0 <= res1 <= 255 and 0 <= res2 <= 255
     pre: 0 <= mx <= 0xFFFFFFFF
     post: _
     """
     res = (res0, res1, res2)
     k = pick(k, 0, 3)
-    pcs = [pdu.PresentationContextItemAC(id0 + 2 * i, res[i], pdu.TransferSyntaxSubItem(TS[i] if res[i] == 0 else ''))
+    ids = (id0, id1, id2)
+    pcs = [pdu.PresentationContextItemAC(ids[i], res[i], pdu.TransferSyntaxSubItem(TS[i] if res[i] == 0 else ''))
            for i in range(k)]
     ui = pdu.UserInformationItem([udi.MaximumLengthSubItem(mx), udi.ImplementationClassUIDSubItem(UIDCH[:30])])
     x = pdu.AAssociateAcPDU('CALLED', 'CALLING', [pdu.ApplicationContextItem('1.2.840.10008.3.1.1.1')] + pcs + [ui])
     ok = rt_pdu(pdu.AAssociateAcPDU, x)
-    deep(ok and k == 3 and res1 == 0 and res2 == 3)
+    deep(ok and k == 3 and res1 == 0 and res2 == 3 and id0 > id2 > id1)
+    return ok
+
+
+# ------------------------------------------------------------------------------------------------
+# 4b. the round trip does not depend on what was decoded / encoded before
+# ------------------------------------------------------------------------------------------------
+
+HISTORY_KINDS = ['sub%d' % i for i in range(9)] + ['pc_rq', 'pc_ac', 'rq', 'ac', 'rj', 'abort', 'pdata']
+
+
+def _hist_value(kind, c, r):
+    """a value of `kind` whose integer fields come from c (32 bit) and r (8 bit); text fields are the same for every c, r"""
+    if kind.startswith('sub'):
+        i = int(kind[3:])
+        s_ = sample_sub(i, c)
+        s_.reserved = r
+        return pdu.UserInformationItem([s_, udi.MaximumLengthSubItem(c)]), pdu.UserInformationItem
+    if kind == 'pc_rq':
+        return pdu.PresentationContextItemRQ(c & 255, pdu.AbstractSyntaxSubItem(UIDCH[:20], r),
+                                             [pdu.TransferSyntaxSubItem(t, r) for t in TS[:2]], r, r, r, r), \
+            pdu.PresentationContextItemRQ
+    if kind == 'pc_ac':
+        return pdu.PresentationContextItemAC(c & 255, r, pdu.TransferSyntaxSubItem(TS[0], r), r, r, r), \
+            pdu.PresentationContextItemAC
+    if kind in ('rq', 'ac'):
+        cls = pdu.AAssociateRqPDU if kind == 'rq' else pdu.AAssociateAcPDU
+        pc = _hist_value('pc_rq' if kind == 'rq' else 'pc_ac', c, r)[0]
+        ui = pdu.UserInformationItem([udi.MaximumLengthSubItem(c), udi.ImplementationClassUIDSubItem('1.2.3', r)])
+        return cls('CALLED', 'CALLING', [pdu.ApplicationContextItem('1.2.840.10008.3.1.1.1', r), pc, ui],
+                   c & 0xFFFF, r), cls
+    if kind == 'rj':
+        return pdu.AAssociateRjPDU(r, c & 255, (c >> 8) & 255), pdu.AAssociateRjPDU
+    if kind == 'abort':
+        return pdu.AAbortPDU(r, c & 255), pdu.AAbortPDU
+    return pdu.PDataTfPDU([pdu.PresentationDataValueItem(r, APPCH[:3]),
+                           pdu.PresentationDataValueItem(c & 255, APPCH[:2])]), pdu.PDataTfPDU
+
+
+def rt_last_item(cls, x, reset=True):
+    """the user-information item is the last variable item (validity predicate): nothing follows it in the stream"""
+    if reset:
+        fresh()
+    b = x.encode()
+    st = mkstream(b)
+    y = cls.decode(st)
+    return same(x, y) and y.encode() == b and len(b) == total_len(x)
+
+
+@cond(bounds='history: a value of each kind (9 sub-item kinds inside a user-information item, presentation-context RQ / AC '
+             'items, A-ASSOCIATE-RQ / AC, A-ASSOCIATE-RJ, A-ABORT, P-DATA-TF) is encoded and decoded with one set of '
+             'symbolic integer / reserved fields, THEN a second value of the same kind with the same text fields but an '
+             'independent second set of symbolic fields must round-trip (decoder / encoder state must not carry over)',
+      family={'kind': HISTORY_KINDS}, timeout=180)
+def after_history(c1: int, r1: int, c2: int, r2: int) -> bool:
+    """
+    pre: 0 <= c1 <= 0xFFFFFFFF and 0 <= c2 <= 0xFFFFFFFF and 0 <= r1 <= 255 and 0 <= r2 <= 255
+    post: _
+    """
+    kind = fam('kind')
+    fresh()
+    x1, cls = _hist_value(kind, c1, r1)
+    x2, _ = _hist_value(kind, c2, r2)
+    rt = rt_pdu if kind in ('rq', 'ac', 'rj', 'abort', 'pdata') else (rt_last_item if kind.startswith('sub') else rt_item)
+    ok = rt(cls, x1, reset=False)
+    ok = ok and rt(cls, x2, reset=False)
+    # and the first value still reads the same afterwards
+    ok = ok and rt(cls, x1, reset=False)
+    deep(ok and r1 != r2 and c1 != c2)
     return ok
 
 
